@@ -54,6 +54,9 @@ MUTANTS = [
     {"id": "c10-len-of-str-chunk", "expect": "fire", "edits": [(P, "        return [color_fmt(str(value))], align\n", "        pad = ' ' * max(0, 3 - len(str(cp.text(str(value)))))\n        return [color_fmt(str(value) + pad)], align\n")]},
     {"id": "c10-prefix-read-in-ppobj", "expect": "fire", "edits": [(P, "        filler_len = width - CHText.calc_chunks_len(ch_chunks)\n", "        filler_len = width - sum(len(c.text) + (1 if c.c_prefix else 0) for c in ch_chunks)\n")]},
     {"id": "c10-sync-not-on-set", "expect": "fire", "edits": [(C, "    for palette in _GSYNCED_PALETTES.values():\n        palette._sync_with_config(colors_config)\n", "")]},
+    {"id": "c10-memoised-cell-renderer", "expect": "fire", "edits": [(P, "from collections import defaultdict\n", "from collections import defaultdict\nfrom functools import lru_cache\n"), (P, "    @staticmethod\n    def is_keyword_value(value):", "    @staticmethod\n    @lru_cache(maxsize=256)\n    def is_keyword_value(value):")],
+     "note": "1 == True == 1.0 hash-equal: the cached answer for True is returned for 1"},
+    {"id": "c10-fit-mutates-argument", "expect": "fire", "edits": [(P, "            result = [filler, ]\n            result.extend(ch_chunks)\n            return result", "            ch_chunks.insert(0, filler)\n            return ch_chunks")]},
     # neutral
     {"id": "c10-n-weakkey", "expect": "silent", "edits": [(P, "        self._cache = {}\n\n        self._cache_lengths", "        import weakref\n        self._cache = weakref.WeakKeyDictionary()\n\n        self._cache_lengths")]},
     {"id": "c10-n-local-palette-var", "expect": "silent", "edits": [(P, """        return CHTextResult(
